@@ -60,6 +60,8 @@ def execute(case):
         out["pre"] = [b[1]() for b in built]
         if kind == "pair":
             a, b = fibers
+            if case.get("lazyb"):
+                b = b & b            # the right operand is itself the (lazy) result of a co-iteration with b's present coordinates
             res = {"and": lambda: a & b, "or": lambda: a | b, "xor": lambda: a ^ b, "sub": lambda: a - b}[op]()
             got = []
             for c, ps in res:
